@@ -249,12 +249,16 @@ func (m Emu) val(v *Val) string {
 		if v.Call && name == "str" {
 			name = "_str"
 		}
-		b.WriteString(name)
-		if v.Call {
-			b.WriteString("(" + m.args(v.Args) + ")")
-		}
-		if v.Meth != "" {
-			b.WriteString("." + v.Meth + "(" + m.args(v.MArgs) + ")")
+		if !v.Call && (v.Meth == "keys" || v.Meth == "values" || v.Meth == "items") && len(v.MArgs) == 0 {
+			b.WriteString("_d" + v.Meth + "(" + name + ")")
+		} else {
+			b.WriteString(name)
+			if v.Call {
+				b.WriteString("(" + m.args(v.Args) + ")")
+			}
+			if v.Meth != "" {
+				b.WriteString("." + v.Meth + "(" + m.args(v.MArgs) + ")")
+			}
 		}
 	}
 	for _, sl := range v.Slices {
@@ -377,4 +381,4 @@ func (m Emu) Toggles() []string {
 // ExprClasses are the classes the emulation can switch (the expression-level differences).
 var ExprClasses = []string{ClsRest, ClsLazy, ClsPrefix, ClsNeg, ClsCmp,
 	"int-mod-truncated", "int-div-truncated", "floordiv-by-zero-no-error", "floordiv-float-precision", "int-overflow-wraps",
-	"eq-strict-types", "str-of-container-go-format", "octal-literal-read-as-decimal", "augassign-rebinds"}
+	"eq-strict-types", "str-of-container-go-format", "octal-literal-read-as-decimal", "augassign-rebinds", "dict-enumeration-sorted"}
